@@ -700,6 +700,8 @@ func debugMain(args []string) int {
 					fmt.Println("     ", e)
 				}
 			}
+		} else if slow, _ := strconv.Atoi(os.Getenv("RAFTSIM_SLOW")); slow > 0 && o.sim.settleRounds >= slow {
+			fmt.Printf("%d %s/%s cfg=%+v actions=%d settleRounds=%d churn=%v\n", i, sp.Kind, sp.Name, sp.Cfg, len(o.sim.actions), o.sim.settleRounds, o.sim.churn)
 		} else if to == from {
 			fmt.Printf("%d %s/%s ok actions=%d settleRounds=%d nt=%v\n", i, sp.Kind, sp.Name, len(o.sim.actions), o.sim.settleRounds, nontrivial(check, o.sim))
 		}
